@@ -1515,8 +1515,11 @@ int ov_pcm_seek_page(OggVorbis_File *vf,ogg_int64_t pos){
             if(bisect==0) goto seek_error;
             bisect-=CHUNKSIZE;
 
-            /* don't repeat/loop on a read we've already performed */
-            if(bisect<=begin)bisect=begin+1;
+            /* never back up past begin.  The page at begin itself may
+               not have been examined yet (the first guess can jump
+               over it), so start from it, not one byte after it;
+               a second look at it ends the bisection above */
+            if(bisect<=begin)bisect=begin;
 
             /* seek and cntinue bisection */
             result=_seek_helper(vf,bisect);
@@ -1565,7 +1568,7 @@ int ov_pcm_seek_page(OggVorbis_File *vf,ogg_int64_t pos){
                    little bit, and try again */
                 end=result;
                 bisect-=CHUNKSIZE;
-                if(bisect<=begin)bisect=begin+1;
+                if(bisect<=begin)bisect=begin; /* as above */
                 result=_seek_helper(vf,bisect);
                 if(result) goto seek_error;
               }else{
